@@ -86,7 +86,7 @@ def child(pid, tier, seed, replay):
                 for rnd in range(rounds):
                     ctx.seed = seed + 7919 * rnd
                     mod.run(ctx)
-                    if ctx.failures or ctx.disagreements:
+                    if ctx.disagreements or len(ctx.failures) > 5000:
                         break
                 ctx.seed = seed
                 if rounds > 1:
